@@ -162,7 +162,8 @@ pub fn parse_named_updates(s: &str) -> Option<Vec<(String, u32)>> {
 
 /// CMP <srchex> <updates|-> <names|->  ->  OK <imagehex> <reg>;<reg>…  | ERR | PANIC
 pub fn cmp(args: &[&str]) -> String {
-    if args.len() != 3 {
+    // an optional 4th argument is ignored (lets a test compile the identical source more than once)
+    if args.len() != 3 && args.len() != 4 {
         return "BADARG".into();
     }
     let src = match unhex(args[0]) {
